@@ -35,7 +35,7 @@ theorem limbsOk_append {x y : Limbs} : LimbsOk (x ++ y) ↔ LimbsOk x ∧ LimbsO
     · exact h1 l h
     · exact h2 l h
 
-theorem valL_append' (x y : Limbs) : valL (x ++ y) = valL x + B64 ^ x.length * valL y := by
+theorem valL_append_pow (x y : Limbs) : valL (x ++ y) = valL x + B64 ^ x.length * valL y := by
   induction x with
   | nil => simp [valL]
   | cons a as ih =>
